@@ -94,6 +94,16 @@ def parseOp (ws : List String) (steps : String) (oracle : Bool) : Option Op :=
     | _, _, _ => none
   | ["enter", "mutate"] => some (.enter .mutate)
   | ["enter", "mutate_root"] => some (.enter .mutateRoot)
+  -- `Arena::map_root` / `try_map_root` and the constructor callback of `Arena::new` / `try_new`
+  -- are, for the collector, `mutate_root`: `root_barrier()` (a no-op while asleep) and a callback
+  -- that may allocate and replace what the root holds.  A failing `try_map_root` / `try_new`, or a
+  -- panic inside any of them, drops the arena: the harness writes an explicit `droparena` op.
+  | ["enter", "map_root"] => some (.enter .mutateRoot)
+  | ["enter", "try_map_root_ok"] => some (.enter .mutateRoot)
+  | ["enter", "try_map_root_err"] => some (.enter .mutateRoot)
+  | ["enter", "new_ctor"] => some (.enter .mutateRoot)
+  | ["enter", "try_new_ok"] => some (.enter .mutateRoot)
+  | ["enter", "try_new_err"] => some (.enter .mutateRoot)
   | ["enter", "finalize"] => some (.enter .finalize)
   | ["leave"] => some .leave
   | ["leave", "panic"] => some .leave     -- a callback that unwinds: its effects so far stay
